@@ -1,0 +1,22 @@
+//! Verification hook (compiled only with `--cfg xet_verif`): a per-thread callback invoked at named points
+//! between consecutive file-system effects, so a simulator can take the crash state there.
+
+use std::cell::RefCell;
+use std::sync::Arc;
+
+pub type PointFn = dyn Fn(&'static str) + Send + Sync;
+
+thread_local! {
+    static POINT: RefCell<Option<Arc<PointFn>>> = const { RefCell::new(None) };
+}
+
+pub fn install(f: Option<Arc<PointFn>>) -> Option<Arc<PointFn>> {
+    POINT.with(|c| std::mem::replace(&mut *c.borrow_mut(), f))
+}
+
+pub fn point(label: &'static str) {
+    let f = POINT.with(|c| c.borrow().clone());
+    if let Some(f) = f {
+        f(label);
+    }
+}
